@@ -85,6 +85,19 @@ Theorem power_apickpt_refuted :
     /\ r_pages (recover Power (run init (firstn i os))) (1, 2) = None.
 Proof. exact power_apickpt_refuted_l. Qed.
 
+(* the recovery the theorems speak about is the one of a database whose table ids are unique
+   (recover_sh []); with a user table carrying a system table's id the frames are diverted: *)
+Theorem recover_unique_ids :
+  forall m s, recover_sh [] m s = recover m s.
+Proof. exact recover_sh_nil_l. Qed.
+
+Theorem power_id_collision_refuted :
+  exists os i, wf_run init os = true /\ existsb is_api_ckpt os = false /\ in_txn (run init (firstn i os)) = false
+    /\ vol (run init (firstn i os)) (1, 1) = Some 5
+    /\ r_pages (recover_sh [1] Power (run init (firstn i os))) (1, 1) = None
+    /\ r_pages (recover Power (run init (firstn i os))) (1, 1) = Some 5.
+Proof. exact power_id_collision_refuted_l. Qed.
+
 (* non-vacuity: a workload with two tables, autocommit statements, a transaction over both tables, a
    checkpoint and a clean reopen satisfies the side conditions; after it page (1,1) holds image 9 in
    the live file and in both crash images, and no page of it is outside the power-loss claim except
@@ -121,6 +134,8 @@ Check tables_durable : forall os i n t, In t (created (firstn i os)) -> r_open (
 Check kill_catalog_torn_refuted : exists os i n, wf_run init os = true /\ quiet (at_pos os i n) = true /\ In 1 (tabs (at_pos os i n)) /\ r_open (recover Kill (at_pos os i n)) = false.
 Check power_unlogged_refuted : exists os i, wf_run init os = true /\ existsb is_api_ckpt os = false /\ in_txn (run init (firstn i os)) = false /\ vol (run init (firstn i os)) (1, 1) = Some 2 /\ r_pages (recover Power (run init (firstn i os))) (1, 1) = None.
 Check power_apickpt_refuted : exists os i, wf_run init os = true /\ in_txn (run init (firstn i os)) = false /\ kmem (1, 2) (g_unl (ghost_run init ghost0 (firstn i os))) = false /\ vol (run init (firstn i os)) (1, 2) = Some 6 /\ r_pages (recover Power (run init (firstn i os))) (1, 2) = None.
+Check recover_unique_ids : forall m s, recover_sh [] m s = recover m s.
+Check power_id_collision_refuted : exists os i, wf_run init os = true /\ existsb is_api_ckpt os = false /\ in_txn (run init (firstn i os)) = false /\ vol (run init (firstn i os)) (1, 1) = Some 5 /\ r_pages (recover_sh [1] Power (run init (firstn i os))) (1, 1) = None /\ r_pages (recover Power (run init (firstn i os))) (1, 1) = Some 5.
 
 Print Assumptions kill_quiet_exact.
 Print Assumptions ack_quiet.
@@ -132,3 +147,5 @@ Print Assumptions tables_durable.
 Print Assumptions kill_catalog_torn_refuted.
 Print Assumptions power_unlogged_refuted.
 Print Assumptions power_apickpt_refuted.
+Print Assumptions recover_unique_ids.
+Print Assumptions power_id_collision_refuted.
